@@ -51,6 +51,13 @@ def fromFiles (rules : List Rule) (m : Mul) (h : Heap) : RS × Heap :=
   let refs := List.range' h.length rules.length
   (⟨refs, m⟩, postInit refs m (h ++ rules))
 
+/-- `_get_rule_files_for_strictness` over `_STRICTNESS_LEVELS` (given with each level's file): the
+    files of every level up to and including the requested one; an unknown level trips the `assert` -/
+def ruleFilesFor : List (String × String) → String → Option (List String)
+  | [], _ => none
+  | (l, f) :: rest, strictness =>
+    if l == strictness then some [f] else (ruleFilesFor rest strictness).map (f :: ·)
+
 /-- the options `get_ruleset` looks at -/
 structure Req where
   strictness : String
